@@ -22,7 +22,9 @@ Pat1 == [0..(Period - 1) -> Kinds]
 Pat2 == IF Q THEN {<<"f","f","f","f">>, <<"-","f","s","-">>, <<"f","s","-","f">>}
              ELSE {<<"f","f","f","f">>, <<"-","f","s","-">>, <<"f","s","-","f">>, <<"-","-","-","-">>, <<"s","f","f","s">>, <<"f","-","-","-">>}
 Pat3 == IF Q THEN {<<"f","f","f","f">>, <<"-","-","f","s">>} ELSE {<<"f","f","f","f">>, <<"-","-","f","s">>, <<"s","-","f","-">>}
-NStepsSet == IF Q THEN {4, 12} ELSE {4, 12, 23}
+\* 14 steps: steps 10..13 come in a second batch of 10 - whatever the engine keeps per position of a batch is used again,
+\* after a step with a NaN / Inf member (tick 2) by a step without one (tick 12)
+NStepsSet == IF Q THEN {4, 14} ELSE {4, 14, 23}
 Datasets == {"ab", "absent", "twometrics"}
 Specials == IF Q THEN {"none", "nan", "pinf"} ELSE {"none", "nan", "pinf", "mixinf"}
 
